@@ -26,6 +26,14 @@ CHECKS = {
          "Random PDUs of every room version: content_hash and reference_hash must equal hand-written SHA-256 + base64 (alphabet by version) over the reference canonical JSON of the (reference-redacted) event; one mutation inside/outside each covered portion must change / not change the hash; reference hash invariant under ruma's redaction; padded events whose measured canonical form has exactly 65,531-65,540 bytes decide the size limit.",
          "Trusted: hand-written SHA-256/base64 (self-tested against ring::digest at start-up), reference redaction and canonical JSON.",
          "DESIGN.md section 5 C05"),
+ "C08": ("vf-stateres", "bounded-exhaustive enumeration of rule-group dimension products plus property-based concretisation, against a reference implementation of the authorization rules",
+         "For every room version 1-11 (rules through RoomVersionId::rules()) the full product of the dimensions each authorization rule reads is enumerated (77k cells: create, federation prelude, aliases, join incl. restricted joins, invites, third-party invites with ring-made signatures, leave/kick/ban/unban with thresholds below/at/above, knock, unknown memberships, required power, state keys naming users, redaction, power-level changes field by field and entry by entry with int/string/float spellings) and compared with a rule-by-rule reference written from the spec; random renamings, level shifts and irrelevant state/content on top.",
+         "Trusted: the hand-written reference rules, ring for third-party-invite signatures. Spec-silent readings (missing join rules, added/removed power-level fields, float/padded levels before v10, malformed state) are tagged and not asserted; rule 2's auth_events bookkeeping is outside the property's list.",
+         "DESIGN.md section 5 C08"),
+ "C09": ("vf-stateres", "bounded-exhaustive comparison of the auth-event selection, instrumented fetch_state closure, and property-based metamorphic perturbation of unselected state",
+         "Over every C08 cell: auth_types_for_event as a set equals the reference selection; the caller-supplied fetch_state closure logs every (type, state_key) auth_check asks for and the log must stay inside the selection; random perturbations (1-6) of state entries outside the selection - other users' memberships, other tokens, same types under other keys, removals, replacements - must leave the outcome unchanged.",
+         "Trusted: the reference selection (server-server spec). Memberships a room version does not define and contents ruma refuses to select for: totality only.",
+         "DESIGN.md section 5 C09"),
  "C10": ("vf-core", "property-based testing (proptest): grammar/mutant/boundary string generation against a hand-written necessary/sufficient grammar oracle plus cross-form agreement",
          "Random structured search over identifier strings per type (grammar-derived, 1-2 edit mutants, 255/511/767-byte boundary constructions, unstructured) with an accept=>necessary / sufficient=>accept oracle written from the spec appendix, accessor recomposition, agreement of all parsing/serde forms, and constructor outputs re-parsed. Shrunk failures become replay files.",
          "Trusted: rustc/std (incl. Ipv6Addr parser), proptest, serde_json. Spec-silent gaps (ports 65536-99999, server-less room ids, empty localparts, over-long key algorithms) are counted, not asserted.",
